@@ -89,6 +89,7 @@ def gen_world(rng, nmin=3, nmax=20, na_rate=0.0, na_cols=(), ordered_prob=0.5, f
     w.cols["xc"] = {"kind": "num", "v": xc, "decl": []}
     num("w", 0, 3)
     num("u1", 0, 9)
+    num("b q", 1, 4)   # a column whose name is not an identifier: written `b q` in formulas
     # integer-coded factor used through C(k)
     kvals = rng.sample([1, 2, 3, 10, 20], rng.randint(2, 3))
     kv = [rng.choice(kvals) for _ in range(n)]
@@ -122,6 +123,12 @@ def gen_world(rng, nmin=3, nmax=20, na_rate=0.0, na_cols=(), ordered_prob=0.5, f
     w.cols["I(x * 2)"] = {"kind": "num", "v": [2 * v for v in xv], "decl": []}
     w.cols["np.abs(x)"] = {"kind": "num", "v": [abs(v) for v in xv], "decl": []}
     w.cols["I(z + w)"] = {"kind": "num", "v": [a + b for a, b in zip(zv, w.cols["w"]["v"])], "decl": []}
+    # a user function with a keyword argument and nested calls: fk(a, k=b) = a + 2 * b
+    wv, bq = w.cols["w"]["v"], w.cols["b q"]["v"]
+    w.cols["fk(z, k=w)"] = {"kind": "num", "v": [a + 2 * b for a, b in zip(zv, wv)], "decl": []}
+    w.cols["fk(np.abs(z), k=I(`b q`))"] = {"kind": "num", "v": [abs(a) + 2 * b for a, b in zip(zv, bq)], "decl": []}
+    w.namespace["fk"] = _fk
+    w.cols["`b q`"] = {"kind": "num", "v": list(bq), "decl": []}   # the component as it is written
     if quarters:
         w.scale["I(x * 2)"] = 4
         w.scale["np.abs(x)"] = 4
@@ -136,7 +143,11 @@ def gen_world(rng, nmin=3, nmax=20, na_rate=0.0, na_cols=(), ordered_prob=0.5, f
     return w
 
 
-DERIVED = {"C(k)": ["k"], "C(k, levels=KL)": ["k"], "I(h)": ["h"], "S(h)": ["h"], "C(g, Sum)": ["g"], "I(x * 2)": ["x"], "np.abs(x)": ["x"], "I(z + w)": ["z", "w"]}
+def _fk(a, k=0):
+    return a + 2 * k
+
+
+DERIVED = {"fk(z, k=w)": ["z", "w"], "fk(np.abs(z), k=I(`b q`))": ["z", "b q"], "`b q`": ["b q"], "C(k)": ["k"], "C(k, levels=KL)": ["k"], "I(h)": ["h"], "S(h)": ["h"], "C(g, Sum)": ["g"], "I(x * 2)": ["x"], "np.abs(x)": ["x"], "I(z + w)": ["z", "w"]}
 
 
 def _set_na(w, df, c, r):
@@ -162,7 +173,8 @@ def _set_na(w, df, c, r):
 
 CAT_COMPS = ["f", "g", "h", "o", "C(k)", "I(h)", "S(h)", "C(g, Sum)", "C(k, levels=KL)"]
 SAME_FACTOR = [{"h", "I(h)", "S(h)"}, {"g", "C(g, Sum)"}, {"C(k)", "C(k, levels=KL)"}]
-NUM_COMPS = ["x", "z", "I(x * 2)", "np.abs(x)", "I(z + w)"]
+NUM_COMPS = ["x", "z", "I(x * 2)", "np.abs(x)", "I(z + w)", "`b q`", "fk(z, k=w)", "fk(np.abs(z), k=I(`b q`))"]
+Z_DERIVED = ("z", "I(z + w)", "fk(z, k=w)", "fk(np.abs(z), k=I(`b q`))")
 
 
 def comp_vars(c):
@@ -187,6 +199,9 @@ def gen_formula(rng, groups=True, max_terms=4, resp="y", cat_comps=None, num_com
         # x-derived numerics are dependent: keep at most one of them per term
         xs = [c for c in comps if c in ("x", "I(x * 2)", "np.abs(x)")]
         for c in xs[1:]:
+            comps.remove(c)
+        zs = [c for c in comps if c in Z_DERIVED]
+        for c in zs[1:]:
             comps.remove(c)
         rng.shuffle(comps)
         if not comps:
@@ -231,7 +246,14 @@ def gen_formula(rng, groups=True, max_terms=4, resp="y", cat_comps=None, num_com
             eff = [e for e in eff if e not in fac]
             noint = bool(eff) and rng.random() < 0.35
             txt = "(" + ("0 + " if noint else "") + (":".join(eff) if eff else "1") + " | " + ":".join(fac) + ")"
-            if eff and len(fac) == 1 and rng.random() < 0.25:
+            if len(fac) == 1 and fac[0] in ("g", "h") and rng.random() < 0.2:
+                # nested and summed grouping expressions: (e | g/h) = (e|g) + (e|g:h);  (e | g + h) = (e|g) + (e|h)
+                other = "h" if fac[0] == "g" else "g"
+                if other not in eff:
+                    form = rng.choice(["/", " + "])
+                    txt = "(" + ("0 + " if noint else "") + (":".join(eff) if eff else "1") + " | " + fac[0] + form + other + ")"
+                    gterms.append({"e": eff, "g": [fac[0], other] if form == "/" else [other], "noint": noint})
+            if eff and len(fac) == 1 and rng.random() < 0.25 and "/" not in txt and " + " not in txt.split("|")[1]:
                 # the same effect under two grouping factors, with a group intercept for only one of them
                 fac2 = rng.choice([v for v in ("g", "h", "f") if v not in fac and v not in eff])
                 txt = "(0 + " + ":".join(eff) + " | " + fac[0] + " + " + fac2 + ") + (1 | " + fac[0] + ")"
@@ -267,6 +289,13 @@ def gen_formula(rng, groups=True, max_terms=4, resp="y", cat_comps=None, num_com
 
 def parse_piece(s, w):
     """'name[level]' / 'name' -> [abstract column, level code]."""
+    if s == "b q":
+        return ["b q", 0]
+    # formulae writes back-quoted names without the back-quotes in term names
+    for full in w.cols:
+        if "`" in full and full.replace("`", "") == s:
+            s = full
+            break
     if s in w.cols and w.cols[s]["kind"] == "num":
         return [s, 0]
     best = None
